@@ -18,6 +18,9 @@ type FilterPool struct {
 	TagVals  map[string][]string // non-empty values per name
 	Ts       []int64
 	MaxLimit int64
+	// BigLimits: now and then a limit no store will ever reach (2^31 and beyond), which
+	// must behave like a very large limit, not like a small, zero or negative one
+	BigLimits bool
 	// AllowEmptyTagsMap lets the generator produce Tags: map{} (non-nil, empty).
 	AllowEmptyTagsMap bool
 	// NoTagCaseClash prevents a filter from carrying both #x and #X.
@@ -159,6 +162,9 @@ func (p *FilterPool) DrawFilter(t *rapid.T, label string) *mocrelay.ReqFilter {
 	}
 	if pres("limit", 4) {
 		f.Limit = ptr(rapid.Int64Range(0, p.MaxLimit).Draw(t, label+"limit"))
+		if p.BigLimits && rapid.IntRange(0, 5).Draw(t, label+"biglimit") == 0 {
+			f.Limit = ptr(rapid.SampledFrom([]int64{1<<31 - 1, 1 << 31, 1<<32 - 1, 1 << 32, 1<<32 + 1, 1<<32 + 2, 1 << 40, 1<<63 - 1}).Draw(t, label+"biglimitv"))
+		}
 	}
 	return f
 }
